@@ -328,6 +328,12 @@ static bool isNonConstRefOrPtr(QualType T) {
   if (T->isReferenceType()) return !T->getPointeeType().isConstQualified() && T->isLValueReferenceType();
   return false;
 }
+// an array l-value decayed to a pointer-to-non-const parameter: the callee may write the array
+static bool isArrayToMutablePtr(const Expr *Arg, QualType ParamT) {
+  if (ParamT.isNull() || !ParamT->isPointerType() || ParamT->getPointeeType().isConstQualified()) return false;
+  const Expr *S = strip(Arg);
+  return S && S->getType()->isArrayType();
+}
 
 static Access classify(Ctx &C, const Expr *E, const FunctionDecl *Cur, int fuel = 12) {
   Access A;
@@ -439,6 +445,7 @@ static Access classify(Ctx &C, const Expr *E, const FunctionDecl *Cur, int fuel 
       for (unsigned i = 0; i < CE->getNumArgs(); ++i)
         if (strip(CE->getArg(i)) == strip(E)) {
           if (i < FD->getNumParams() && isNonConstRefOrPtr(FD->getParamDecl(i)->getType())) { A.kind = "refarg"; return A; }
+          if (i < FD->getNumParams() && isArrayToMutablePtr(CE->getArg(i), FD->getParamDecl(i)->getType())) { A.kind = "refarg"; return A; }
           A.kind = "r";
           return A;
         }
